@@ -1210,14 +1210,9 @@ def r18(ctx: Ctx, m):
   repo = ctx.repo
   mi = repo.module('aggregates.text')
   n = 0
-  for ci in mi.classes.values():
-    fi = ci.methods.get('add')
-    if fi is None or len(fi.params()) < 2:
-      continue
-    p = fi.params()[1]
-    n += 1
+  def whole_batch_use(ci, fi, p, depth=0):
+    """First use of the batch parameter `p` of `fi` that is not example-wise (None if there is none)."""
     pm = parent_map(fi.node)
-    bad = None
     for x in ast.walk(fi.node):
       if not (isinstance(x, ast.Name) and x.id == p and isinstance(x.ctx, ast.Load)):
         continue
@@ -1227,8 +1222,25 @@ def r18(ctx: Ctx, m):
           and (unparse(par.func) in ('len', 'bool') or isinstance(pm.get(par), (ast.For, ast.comprehension)))) or (
               isinstance(par, (ast.If, ast.While, ast.IfExp)) and par.test is x) or (
                   isinstance(par, ast.BoolOp)) or (isinstance(par, ast.UnaryOp) and isinstance(par.op, ast.Not))
+      if not ok and isinstance(par, ast.Call) and isinstance(par.func, ast.Attribute) and is_self_attr(par.func) and depth < 2:
+        # handed to a helper of the class: the helper's parameter obeys the same rule
+        h = ci.methods.get(par.func.attr)
+        if h is not None and any(a is x for a in par.args):
+          hp = h.params()[1:]
+          idx = [i for i, a in enumerate(par.args) if a is x][0]
+          if idx < len(hp) and whole_batch_use(ci, h, hp[idx], depth + 1) is None:
+            ok = True
       if not ok:
-        bad = par if par is not None else x
+        return par if par is not None else x
+    return None
+
+  for ci in mi.classes.values():
+    fi = ci.methods.get('add')
+    if fi is None or len(fi.params()) < 2:
+      continue
+    p = fi.params()[1]
+    n += 1
+    bad = whole_batch_use(ci, fi, p)
     what = f'{ci.name}.add: the batch `{p}` is processed text by text'
     if bad is None:
       ctx.ok(rule, fi, what, fi.node)
@@ -1248,6 +1260,10 @@ VARIANTS = [
     B('minmax-nan-skipped-per-batch-only', _R,
       '    self._min = np.minimum(self._min, np.min(inputs, axis=self.axis))\n    self._max = np.maximum(self._max, np.max(inputs, axis=self.axis))',
       '    self._min = np.minimum(self._min, np.nanmin(inputs, axis=self.axis))\n    self._max = np.maximum(self._max, np.nanmax(inputs, axis=self.axis))', 'R-C01-17'),
+    OK('ngrams-counted-by-a-helper-text-by-text', 'aggregates/text.py',
+       "    ngrams_counter = collections.Counter()\n    for text in texts:\n      # Remove non-alphabetical and non-space characters",
+       "    ngrams_counter = collections.Counter()\n    for text in self._each(texts):\n      # Remove non-alphabetical and non-space characters",
+       extra=(('aggregates/text.py', "  def merge(self, other: 'TopKWordNGrams'):", "  def _each(self, batch):\n    for one in batch:\n      yield one\n\n  def merge(self, other: 'TopKWordNGrams'):"),)),
     B('pattern-frequency-scans-the-joined-batch', 'aggregates/text.py',
       '    for pattern in self.patterns:\n      for text in texts:',
       "    for pattern in self.patterns:\n      if self.count_duplicate and texts:\n        batch_frquency_state.counter[pattern] += len(re.findall(r'(?=({}))'.format(re.escape(pattern)), ' '.join(texts)))\n        continue\n      for text in texts:", 'R-C01-18'),
